@@ -65,7 +65,7 @@ def _op(draw, nroots):
 
 @st.composite
 def _case(draw, maxlen):
-    roots = draw(st.lists(st.fixed_dictionaries({"typed": st.booleans(), "mode": st.sampled_from(["return", "return", "raise"])}), min_size=1, max_size=3))
+    roots = draw(st.lists(st.fixed_dictionaries({"typed": st.booleans(), "mode": st.sampled_from(["return", "return", "raise"]), "exc": st.integers(0, 7)}), min_size=1, max_size=3))
     return {"roots": roots, "ops": draw(st.lists(_op(len(roots)), min_size=4, max_size=maxlen))}
 
 
@@ -90,6 +90,30 @@ class Sentinel:
 
 class Boom(Exception):
     pass
+
+
+class BoomRuntime(RuntimeError):
+    pass
+
+
+class BoomNotImplemented(NotImplementedError):
+    pass
+
+
+class BoomValue(ValueError):
+    pass
+
+
+class BoomKey(KeyError):
+    pass
+
+
+class BoomOS(OSError):
+    pass
+
+
+# what an executor may raise: whatever it is, value()/value_async() must let exactly that object through, once
+EXC = [Boom, BoomRuntime, BoomNotImplemented, BoomValue, BoomKey, BoomOS, Boom, BoomRuntime]
 
 
 def _ref_received(q):
@@ -119,16 +143,16 @@ def check(case) -> Result:
         def met(self) -> float: ...
 
     class DS(EventDataset):
-        def __init__(self, idx, typed, mode):
+        def __init__(self, idx, typed, mode, exc=0):
             if typed:
                 super().__init__(Evt)
             else:
                 super().__init__()
-            self.idx, self.mode, self.calls, self.gated = idx, mode, [], False
+            self.idx, self.mode, self.calls, self.gated, self.exc = idx, mode, [], False, EXC[exc % len(EXC)]
 
         async def execute_result_async(self, a, title=None):
             call = {"ast": a, "title": title, "gate": Gate() if self.gated else None}
-            call["out"] = Sentinel((self.idx, len(self.calls))) if self.mode == "return" else Boom(f"ds{self.idx}#{len(self.calls)}")
+            call["out"] = Sentinel((self.idx, len(self.calls))) if self.mode == "return" else self.exc(f"ds{self.idx}#{len(self.calls)}")
             self.calls.append(call)
             if call["gate"] is not None:
                 await call["gate"]
@@ -136,7 +160,7 @@ def check(case) -> Result:
                 raise call["out"]
             return call["out"]
 
-    roots = [DS(i, x["typed"], x["mode"]) for i, x in enumerate(case["roots"])]
+    roots = [DS(i, x["typed"], x["mode"], x.get("exc", 0)) for i, x in enumerate(case["roots"])]
     streams = [[d, i, None] for i, d in enumerate(roots)]  # stream, root index, parent
     executed_parents = set()
     feats = {"batch-out-of-order": False, "exec-after-rederive": False, "override": False, "raise": False, "terminal-exec": False}
@@ -148,7 +172,7 @@ def check(case) -> Result:
         """run fn(); the result must BE the executor's sentinel, or the raised object must BE its exception"""
         try:
             res = fn()
-        except Boom as e:
+        except tuple(EXC) as e:
             call = call_getter()
             if call is None or call["out"] is not e:
                 return f"{what}: raised {e!r}, which is not the object the stream's executor raised"
@@ -159,7 +183,7 @@ def check(case) -> Result:
         call = call_getter()
         if call is None:
             return f"{what}: no executor call was recorded"
-        if isinstance(call["out"], Boom):
+        if isinstance(call["out"], tuple(EXC)):
             return f"{what}: the executor raised but value returned {res!r}"
         if res is not call["out"]:
             return f"{what}: returned {getattr(res, 'tag', res)!r}, the executor returned {call['out'].tag!r}"
